@@ -42,6 +42,39 @@ theorem execTrace_sound {w : Wrapper} (hw : wrapperOk w = true) (hf : failReturn
       simp only [completes, List.any_cons, hret', Bool.false_or] at hc ⊢
       exact hc
 
+/-- a body that gets as far as the wrapper's last call ends in a `return` (for a wrapper record that passes `finalOk`) -/
+theorem completes_of_reaches_last {w : Wrapper} (hf : finalOk w = true) (tr : List (Call × Outcome))
+    (hl : tr.getLast?.map Prod.fst = w.calls.getLast?) (hne : w.calls ≠ []) : completes w tr = true := by
+  unfold finalOk at hf
+  unfold completes
+  cases h1 : w.finalSucceeds
+  case true => simp
+  case false =>
+  cases h2 : w.ret == .void
+  case true => simp
+  case false =>
+  cases h3 : w.ret == .value
+  case true => simp
+  case false =>
+  simp only [h1, h2, h3, Bool.false_or, Bool.or_false] at hf ⊢
+  cases hc : w.calls.getLast? with
+  | none => exact absurd (List.getLast?_eq_none_iff.mp hc) hne
+  | some c =>
+    rw [hc] at hf hl
+    simp only [Bool.and_eq_true] at hf
+    cases ht : tr.getLast? with
+    | none => rw [ht] at hl; cases hl
+    | some p =>
+      rw [ht] at hl
+      simp only [Option.map_some, Option.some.injEq] at hl
+      apply List.any_eq_true.mpr
+      refine ⟨p, List.mem_of_getLast? ht, ?_⟩
+      rw [hl]
+      cases p.2
+      · exact hf.1
+      · exact hf.2
+      · rfl
+
 /-! ## `principal` picks a call of the wrapper -/
 
 theorem principal_mem {w : Wrapper} {sel : Nat} {c : Call} (h : principal w sel = some c) : c ∈ w.calls := by
